@@ -2463,6 +2463,23 @@ func (s *Store) ensureCheckTxn(tx WriteTxn, idx uint64, preserveIndexes bool, hc
 	}
 
 	// Delete any sessions for this check if the health is critical.
+	// The check may have moved between scopes (node-level <-> service-level, or
+	// from one service to another): the results of the services it no longer
+	// applies to change as well, so their indexes have to move too.
+	if existing != nil && modified {
+		if old := existing.(*structs.HealthCheck); old.ServiceID != hc.ServiceID {
+			if old.ServiceID == "" {
+				if err := updateAllServiceIndexesOfNode(tx, idx, hc.Node, &hc.EnterpriseMeta, hc.PeerName); err != nil {
+					return err
+				}
+			} else if old.ServiceName != "" {
+				if err := catalogUpdateServiceIndexes(tx, idx, old.ServiceName, &old.EnterpriseMeta, old.PeerName); err != nil {
+					return err
+				}
+			}
+		}
+	}
+
 	if hc.Status == api.HealthCritical && hc.PeerName == "" {
 		sessions, err := checkSessionsTxn(tx, hc)
 		if err != nil {
